@@ -217,6 +217,44 @@ theorem pyLookupIn_eq (defs : Nat → Nat → Bool) (a : Nat) (mro : List Nat) :
     · simp only [Bool.false_eq_true, if_false]; exact ih
     · simp
 
+/-! ### lookups through super() -/
+
+theorem pyLookupSkip_of_disjoint (defs : Nat → Nat → Bool) (a : Nat) (skip l : List Nat)
+    (h : ∀ x ∈ l, x ∉ skip) : pyLookupSkip defs a skip l = pyLookupIn defs a l := by
+  induction l with
+  | nil => rfl
+  | cons c rest ih =>
+    rw [pyLookupSkip, pyLookupIn, if_neg (h c List.mem_cons_self),
+      ih (fun x hx => h x (List.mem_cons_of_mem _ hx))]
+
+theorem pyLookupSkip_cons_not_mem (defs : Nat → Nat → Bool) (a c : Nat) (S l : List Nat)
+    (h : c ∉ l) : pyLookupSkip defs a (c :: S) l = pyLookupSkip defs a S l := by
+  induction l with
+  | nil => rfl
+  | cons x rest ih =>
+    have hx : x ≠ c := fun e => h (by simp [e])
+    have hr : c ∉ rest := fun hm => h (List.mem_cons_of_mem _ hm)
+    rw [pyLookupSkip, pyLookupSkip, ih hr]
+    simp only [List.mem_cons, hx, false_or]
+
+/-- on a duplicate-free MRO, skipping the *set* of classes up to `cur` is continuing *after*
+the position of `cur` -/
+theorem super_walk_eq (defs : Nat → Nat → Bool) (a cur : Nat) (m : List Nat) (hm : m.Nodup) :
+    pyLookupSkip defs a (pySkipSet cur m) m = cLookupIn defs a (dropThrough cur m) := by
+  induction m with
+  | nil => rfl
+  | cons c rest ih =>
+    have hc : c ∉ rest := (List.nodup_cons.1 hm).1
+    rw [pySkipSet, dropThrough]
+    by_cases hcc : c = cur
+    · rw [if_pos hcc, if_pos hcc, pyLookupSkip, if_pos List.mem_cons_self,
+        pyLookupSkip_of_disjoint defs a [c] rest (fun x hx hmem => by
+          simp at hmem; subst hmem; exact hc hx)]
+      exact pyLookupIn_eq defs a rest
+    · rw [if_neg hcc, if_neg hcc, pyLookupSkip, if_pos List.mem_cons_self,
+        pyLookupSkip_cons_not_mem defs a c _ rest hc]
+      exact ih (List.nodup_cons.1 hm).2
+
 /-! ### the table entry of a class is the step function applied to the final table -/
 
 theorem buildTable_prefix (step : Table → Nat → List Nat → Res Nat) (H : Hier) (tbl : Table) :
